@@ -9,7 +9,7 @@ two observation traces must be identical; (iv) Event parameters are False and co
 import itertools
 
 from mc.engine import Harness, Result, V
-from harness.dispatch_world import World, Boom
+from harness.dispatch_world import World, Boom, Abort
 from harness.c03 import W
 
 BAD = 99     # rejected by n = Number(bounds=(0, 10))
@@ -39,10 +39,14 @@ class C05(Harness):
             ('F3', [W(0, ['a', 'b'], onlychanged=True, mode='kwargs'), W(1, ['n'], onlychanged=False), W(2, ['e', 'a'], onlychanged=True, queued=True)]),
         ]
         F = self.bounds(tier)['max_injected_watcher_faults']
-        return [{'name': n, 'specs': s, 'F': F} for n, s in cs]
+        out = [{'name': n, 'specs': s, 'F': F} for n, s in cs]
+        # the same with a non-Exception error (BaseException subclass) escaping the faulty watcher
+        out.append({'name': 'F1-abort', 'specs': cs[0][1], 'F': F, 'abort': True})
+        return out
 
     def depth(self, tier, cfg):
-        return self.bounds(tier)['program_length']
+        L = self.bounds(tier)['program_length']
+        return L - 1 if cfg.get('abort') else L
 
     def tokens(self, nest, has_open):
         ops = [['set', 'a', 1], ['set', 'b', 1], ['set', 'e', 3],
@@ -51,7 +55,7 @@ class C05(Harness):
                ['update_bad', [['n', BAD], ['a', 2]]],
                ['update_bad', [['n', BAD], ['e', 3]]],
                ['update_bad', [['a', 2], ['zz', 1]]],
-               ['trigger', ['a']], ['trigger', ['e']], ['raise']]
+               ['trigger', ['a']], ['trigger', ['e']], ['trigger', ['a', 'ro']], ['raise']]
         if nest < self.MAXNEST:
             ops += [['open', 'batch'], ['open', 'discard'], ['open', 'try'], ['open', 'edit_constant'], ['open_update', [['a', 2]]]]
         if has_open:
@@ -63,6 +67,8 @@ class C05(Harness):
         """returns (world, violations, info)"""
         world = World(cfg['specs'], event=True)
         world.fault_calls = set(fault_calls)
+        if cfg.get('abort'):
+            world.fault_exc = Abort
         vs = []
         info = {'fired': 0, 'raised_tokens': 0}
         o = world.o
@@ -79,7 +85,7 @@ class C05(Harness):
                     return
                 try:
                     cm.__exit__(type(exc), exc, exc.__traceback__)
-                except Exception as e2:      # an exit handler raised (e.g. a watcher faulted during the flush)
+                except (Exception, Abort) as e2:      # an exit handler raised (e.g. a watcher faulted during the flush)
                     exc = e2
 
         for i, op in enumerate(program):
@@ -105,7 +111,7 @@ class C05(Harness):
                         cm.__exit__(None, None, None)
                 else:
                     world.apply(op)
-            except Exception as e:
+            except (Exception, Abort) as e:
                 raised = e
                 info['raised_tokens'] += 1
                 unwind(e)
@@ -143,10 +149,22 @@ class C05(Harness):
                 continue
             try:
                 cm.__exit__(None, None, None)
-            except Exception as e:
+            except (Exception, Abort) as e:
                 unwind(e)
         info['fired'] = world.faults_fired
         info['calls'] = world.ncalls
+        # (v) every change that survives to the end has been announced by now to every watcher of that parameter (a rejected value, a
+        # failing trigger or a raising body must not swallow announcements that were pending); discard_events legitimately drops them
+        if not fault_calls and not any(op[:2] == ['open', 'discard'] for op in program):
+            calls = [e[1] for e in world.log if e[0] == 'call']
+            for n in ('a', 'b'):
+                final = world.tok(getattr(o, n))
+                if final == 0:
+                    continue
+                for s in world.specs:
+                    if n in s['names'] and s['what'] == 'value' and not any(self._has_event(c, n, final) for c in calls if c['w'] == s['id']):
+                        vs.append(V('change-never-announced', 'program %r: %s ended as %r but watcher %s was never told' % (program, n, final, s['id']),
+                                    name=n, watcher_mode=s['mode']))
         return world, vs, info
 
     @staticmethod
